@@ -76,3 +76,49 @@ Proof.
   intros h src url. unfold probes, request_tokens. apply in_or_app. right. apply in_or_app. right. left. reflexivity.
 Qed.
 Print Assumptions C01_probes_zero.
+
+(* ------------------------------------------------------------------ the token guarantee, proved
+   from the concrete tokenizer for plain patterns (no hostname, domain option, scheme restriction
+   or regex): every token tokenize_filter keeps is a whole token of every URL the plain matcher
+   accepts, so TG is a theorem, not a premise, for such rules.  ([tku] is the tokenizer without the
+   127-token cut-off; below the cut-off it is the tokenizer.) *)
+From Adb Require Import Tok_Proofs.
+
+Theorem C01_tokenizer_below_cutoff : forall sf sl s i cur prec n,
+  (n + length (tku sf sl s i cur prec) <= TOKENS_MAX)%nat -> tk sf sl s i cur prec n = tku sf sl s i cur prec.
+Proof. exact tk_eq_tku. Qed.
+Print Assumptions C01_tokenizer_below_cutoff.
+
+(* what the filter tokenizer keeps: maximal runs of token bytes, longer than one byte, delimited by
+   non-'*' bytes, not at an unanchored start or end of the pattern *)
+Theorem C01_tokenize_filter_sound : forall sf sl s t,
+  In t (tku sf sl s 0 None None) -> Good sf sl s t.
+Proof. exact tokenize_filter_sound. Qed.
+Print Assumptions C01_tokenize_filter_sound.
+
+(* every such run of a URL is one of its tokens *)
+Theorem C01_tokenize_complete : forall x t, Good false false x t -> In t (tku false false x 0 None None).
+Proof. exact tokenize_complete. Qed.
+Print Assumptions C01_tokenize_complete.
+
+Theorem C01_occurrence_tokens_covered : forall sf sl s pre post t,
+  (sf = false -> pre = []) -> (sl = false -> post = []) ->
+  In t (tku sf sl s 0 None None) -> In t (tku false false (pre ++ s ++ post) 0 None None).
+Proof. exact occurrence_tokens_covered. Qed.
+Print Assumptions C01_occurrence_tokens_covered.
+
+Theorem C01_token_guarantee_plain : forall h f s src url,
+  plain_rule f s ->
+  plain_match (is_left_anchor f) (is_right_anchor f) s url = true ->
+  (length (tku false false url 0 None None) <= TOKENS_MAX)%nat ->
+  (length (tku (negb (is_left_anchor f)) (negb (is_right_anchor f)) s 0 None None) <= TOKENS_MAX)%nat ->
+  covered h (probes h src url) f.
+Proof. exact token_guarantee_plain. Qed.
+Print Assumptions C01_token_guarantee_plain.
+
+(* engine = rule-by-rule with NO token-guarantee premise, for lists whose matching rules are plain *)
+Theorem C01_engine_eq_rule_by_rule_plain : forall h matches src url L T,
+  id_inj L -> within_cutoff false false url -> plain_hits matches url L ->
+  blocker_check matches (probes h src url) (tags_with_set h (blocker_new h L) T) = spec_verdict matches L T.
+Proof. exact engine_eq_spec_plain. Qed.
+Print Assumptions C01_engine_eq_rule_by_rule_plain.
